@@ -249,7 +249,9 @@ func crashScenario(spec *crashSpec) *Scenario {
 					}
 					m.Failf("teardown.blocked", "after %s at event %d these calls on that side are still blocked 1.5 s later: %v", spec.X, spec.At, stuck)
 				}
-				if strings.HasPrefix(spec.X, "abort") && peerEstablished && selfEstablished {
+				// (a second event on the peer's side terminates the peer by itself, possibly before
+				// the ABORT is processed: the cause oracle applies to single events only)
+				if strings.HasPrefix(spec.X, "abort") && peerEstablished && selfEstablished && (spec.X2 == "" || sideOf(spec.X2) == side) {
 					// the peer is closed by the ABORT, with an error that carries the cause
 					okPeer := m.WaitUntil("peer-aborted", 1500*time.Millisecond, func() bool {
 						for _, t := range sideThreads[1-side] {
@@ -280,16 +282,20 @@ func crashScenario(spec *crashSpec) *Scenario {
 							if st := pa.getState(); st != closed {
 								m.Failf("abort.peer", "peer is in state %s after receiving ABORT", getAssociationStateString(st))
 							}
+							var bad []string
 							mu.Lock()
 							for _, s := range m.streamsSeen {
 								if s.association != pa || s.readErr == nil || errors.Is(s.readErr, io.EOF) {
 									continue
 								}
 								if e := s.readErr.Error(); !strings.Contains(e, "User Initiated Abort") || !strings.Contains(e, "why") {
-									m.Failf("abort.cause", "peer stream %d failed with %q, which does not carry the abort cause", s.streamIdentifier, e)
+									bad = append(bad, fmt.Sprintf("peer stream %d failed with %q, which does not carry the abort cause", s.streamIdentifier, e))
 								}
 							}
-							mu.Unlock()
+							mu.Unlock() // Failf takes the same mutex
+							for _, b := range bad {
+								m.Failf("abort.cause", "%s", b)
+							}
 						}
 					}
 				}
